@@ -1544,6 +1544,8 @@ void op_PRINT(World& w, const Op& op)
    print_op(w, op);
 }
 
+void op_AGAIN(World&, const Op&) { }   // handled by World::exec (it needs the previous op)
+
 }   // namespace
 
 void register_decl_ops(std::vector<OpInfo>& t)
@@ -1554,7 +1556,7 @@ void register_decl_ops(std::vector<OpInfo>& t)
    R(PHASED, G_DIR); R(PRAGMA, G_DIR); R(PRAGMA_TOKEN, G_MEMBER);
    R(FORM, G_FORM); R(FORM_FILL, G_FORM); R(ATTR, G_ATTR); R(CAPSPEC, G_ATTR);
    R(NEW_UNIT, G_UNIT); R(NEW_MODULE, G_UNIT); R(MODULE_UNIT, G_UNIT); R(MODULE_FILL, G_UNIT); R(SUBREGION, G_REGION);
-   R(LOCATE, G_HARNESS); R(STMT_ATTR, G_MEMBER); R(JUNK, G_HARNESS); R(BULK, G_HARNESS); R(REPEAT, G_HARNESS); R(PRINT, G_HARNESS); R(LONGSTR, G_HARNESS); R(TEMPLATE_FAMILY, G_HARNESS);
+   R(LOCATE, G_HARNESS); R(STMT_ATTR, G_MEMBER); R(JUNK, G_HARNESS); R(BULK, G_HARNESS); R(REPEAT, G_HARNESS); R(PRINT, G_HARNESS); R(LONGSTR, G_HARNESS); R(TEMPLATE_FAMILY, G_HARNESS); R(AGAIN, G_HARNESS);
 #undef R
 }
 
